@@ -4,13 +4,14 @@ import GdVerif.Run.GenValve
 import GdVerif.Run.Master
 import GdVerif.Run.Settings
 import GdVerif.Run.Views
+import GdVerif.Run.Games
 /-
   gdmodel: the model behind a line protocol.
     gdmodel run        : reads `<id> <entry> <args…>` lines on stdin, prints `<id> <outcome>`
 -/
 open Gd Gd.Run
 
-def allEntries : List (String × (List String → String)) := readerEntries ++ valveEntries ++ masterEntries ++ settingsEntries ++ viewEntries
+def allEntries : List (String × (List String → String)) := readerEntries ++ valveEntries ++ masterEntries ++ settingsEntries ++ viewEntries ++ gameEntries
 
 def runLine (line : String) : String :=
   match line.trimAscii.toString.splitOn " " with
@@ -42,6 +43,12 @@ def main (args : List String) : IO UInt32 := do
       for l in lines do IO.println l
       return 0
     | _, _ => return 2
+  | ["gen", "valvefor", seed, n, eng, g] =>
+    match seed.toNat?, n.toNat?, parseEngine eng, parseGather g with
+    | some seed, some n, some eng, some g =>
+      for l in genValveWith (some (eng, g)) seed n do IO.println l
+      return 0
+    | _, _, _, _ => return 2
   | _ =>
     IO.eprintln "usage: gdmodel run | gen <suite> <seed> <n>"
     return 2
